@@ -222,7 +222,7 @@ def rounding_precision(P, chk):
                 vr = prov(x, t2["args"][0])
                 ok = ok and bool(vr) and all(r.fields[-1:] == ("1",) and (r.kind, r.name, r.site) == (kr.kind, kr.name, kr.site) for r in vr)
                 pr = prov(x, t2["args"][1])
-                ok = ok and any(r.kind == "call" and r.site == bb for cn, r in q.chains(x, t2["args"][1], stop=lambda r: r.kind == "call" and r.site == bb))
+                ok = ok and bool(pr) and all(r.kind == "call" and r.site == bb and not (set(r.via) - {"φ"}) for r in pr)
         detail = "precision looked up for %s, applied to %s" % (sorted(mir.show_root(r) for r in key_roots),
                                                                 [mir.prov_strs(x, t2["args"][0]) for b2, t2 in rd] if ok or rd else "?")
     chk.require(ok, R_ACC, "Amount::round_mut|each commodity rounded with its own declared precision", b.loc(), detail,
